@@ -132,4 +132,14 @@ Emit == Final =>
                                     dev |-> [D_update_data_in_place |-> [steps |-> StepsJ("u")]]]))
      ELSE PrintT("CASE " \o ToJson([in |-> input, exp |-> [steps |-> StepsJ("i")],
                                     dev |-> [D_remove_first_is_last |-> [steps |-> StepsJ("r")]]]))
+\* S4: collections with an RRset of differing TTLs, through rrsets() and sign_zone
+MixedZones == { <<soa, ns, r1, r2t>>, <<soa, r2, r2t, tw>>, <<soa, ns, b1, [tw EXCEPT !.ttl = 60], [tw EXCEPT !.rd = <<1, 118>>]>> }
+NoPanic == (Len(hist) >= 0) => \A z \in MixedZones : LET c == FromVec(z).coll IN MixedTtl(c) => ~IterPanics(c, Dev)
+EmitMixed == hist = <<>> =>
+  \A z \in MixedZones : \A call \in {"rrsets", "sign_zone"} :
+     LET c == FromVec(z).coll
+     IN PrintT("CASE " \o ToJson(
+          [in |-> [kind |-> "mixed_ttl", call |-> call, apex |-> Apex, recs |-> z],
+           exp |-> [panic |-> IterPanics(c, {})],
+           dev |-> [D_mixed_ttl_panic |-> [panic |-> IterPanics(c, {"D_mixed_ttl_panic"})]]]))
 =============================================================================
